@@ -140,8 +140,8 @@ def runs(item):
     elif n <= 40:
         pairs = list(itertools.combinations(range(n), 2))
         errs += [pairs[int(j)] for j in rng.permutation(len(pairs))[:30]]
-    rates = [0.05, 0.15] if tier == 'quick' else [0.02, 0.05, 0.1, 0.2]
-    nrand = 6 if tier == 'quick' else 40
+    rates = [0.05, 0.15] if tier == 'quick' else [0.02, 0.08, 0.2]
+    nrand = 6 if tier == 'quick' else 20
     for p in rates:
         for _ in range(nrand):
             errs.append(tuple(int(q) for q in np.nonzero(rng.random(n) < p)[0]))
